@@ -323,8 +323,34 @@ def r3(ctx):
                       f"the plate -> sample mapping {h.site()} raises on a plate with more than one sample, else returns its sample id",
                       f"{h.site()} does not refuse multi-sample plates before returning the first sample id ({len(guards)} raising guard(s))")
         if direct and not helpers:
-            ctx.check("R3", f"{f.site()}::refuses-multi-sample", False, "",
-                      f"the smoother reads a plate's first sample id directly ({direct[:2]}) without the refusal of multi-sample plates")
+            # a direct read is fine next to its refusal (the helper's body spliced in place): an earlier statement of the same statement list
+            # is `if <the plate has more than one sample>: raise`
+            par_ = enclosing_map(f.node)
+            Nd = Norm(strict=False)
+            unguarded = []
+            for n in walk_own(f.node):
+                if not (isinstance(n, ast.Subscript) and isinstance(n.value, ast.Attribute) and n.value.attr in ("unique_sample_ids", "sample_ids") and U(n.slice) == "0"
+                        and not U(n.value.value).endswith("screen")):
+                    continue
+                pv_ = U(n.value.value)
+                want = [Nd.b(parse_expr(f"len({pv_}.unique_sample_ids) > 1"), integer=True), Nd.b(parse_expr(f"{pv_}.n_unique_samples != 1")),
+                        Nd.b(parse_expr(f"len({pv_}.unique_sample_ids) != 1")), Nd.b(parse_expr(f"{pv_}.n_unique_samples > 1"), integer=True)]
+                st_ = n
+                found = False
+                while st_ in par_ and not found:
+                    p_ = par_[st_]
+                    for fld in ("body", "orelse"):
+                        lst_ = getattr(p_, fld, None)
+                        if isinstance(lst_, list) and any(y is st_ for y in lst_):
+                            k_ = [q for q, y in enumerate(lst_) if y is st_][0]
+                            for prev in lst_[:k_]:
+                                if isinstance(prev, ast.If) and prev.body and isinstance(prev.body[-1], ast.Raise) and Nd.b(prev.test, integer=True) in want:
+                                    found = True
+                    st_ = p_
+                if not found:
+                    unguarded.append(U(n)[:60])
+            ctx.check("R3", f"{f.site()}::refuses-multi-sample", not unguarded, "every direct read of a plate's first sample id follows the refusal of multi-sample plates",
+                      f"the smoother reads a plate's first sample id directly ({unguarded[:2]}) without the refusal of multi-sample plates")
     for cls in ("MergeMinPlateSmoother", "MergeTopBottomPlateSmoother"):
         f = ctx.fn(f"{RETRO}.{cls}._smooth_plates")
         merges = [c for c in calls(f.node, tail="merge")]
